@@ -491,6 +491,12 @@ func run(c Case) (f *evid.Failure) {
 			target = reflect.Zero(reflect.PointerTo(t)).Interface() // typed nil pointer
 		}
 		decodeCall(c.API, c.Flags, docOf(c), target)
+		if c.N == 0 {
+			// whatever the decode left in the target - complete, partial after an error - is a Go value like
+			// any other: encoding it reads every pointer, slice and map the decoder stored (a wild or
+			// mistyped pointer faults here, inside the supervised call)
+			encodeCall("Marshal", 0, target)
+		}
 	case "decode-hostile":
 		decodeCall(c.API, c.Flags, docOf(c), hostileTarget(c.Hostile))
 	case "bytes":
